@@ -1981,6 +1981,10 @@ class NodeVal:
         if attr == "setAttribute":
             self.attrs[args[0] if not isinstance(args[0], SymStr) else args[0].text()] = args[1]
             return None
+        if attr == "getAttribute":
+            return self.attrs.get(args[0], "")      # minidom: a missing attribute reads as ""
+        if attr == "hasAttribute":
+            return args[0] in self.attrs
         if attr == "appendChild":
             self.adopt(args[0])
             self.children.append(args[0])
